@@ -493,31 +493,68 @@ def run_pure(hist):
     return {"results": res, "store": store, "args": args_at, "mode_events": mode_events}
 
 
-def has_partial_attrs(sm):
-    return hasattr(sm, "order1") or hasattr(sm, "order2")
+def strip_empty_partials(c):
+    """canonical form with EMPTY order1 / order2 dictionaries of a StateMatrix removed: out of place the attributes are
+    absent when the input carries no partial, in place an existing empty dictionary stays -- the same value"""
+    if isinstance(c, tuple):
+        if len(c) >= 2 and c[0] == "obj" and c[1] == "StateMatrix":
+            return c[:2] + tuple(strip_empty_partials(x) for x in c[2:]
+                                 if not (isinstance(x, tuple) and len(x) == 2 and x[0] in ("order1", "order2") and x[1] == ("dict",)))
+        return tuple(strip_empty_partials(x) for x in c)
+    return c
+
+
+def has_pd(op):
+    import epgpy as epg
+    if isinstance(op, epg.operators.PD):
+        return True
+    return isinstance(op, epg.operators.MultiOperator) and any(has_pd(o) for o in op.operators)
 
 
 def other_mode(c, step, r, store):
-    """the same application in the other mode (in place <-> out of place) on fresh copies of the same values"""
+    """the same application in the other mode (in place <-> out of place) on fresh copies of the same values: the two
+    values must agree, partials included; and for a non-differentiable operator the out-of-place result must carry
+    every partial of the input, each equal to the operator applied to that partial"""
     import epgpy as epg
+    out = []
     try:
         op, sm = copy.deepcopy(store[c["op"]]), copy.deepcopy(store[c["sm"]])
         r2 = op(sm, inplace=not c["inplace"])
     except Exception as e:
         r2 = Raised(e)
-    ca, cb = canon(r), canon(r2)
-    if canon_close(ca, cb):
-        return []
+    ca, cb = strip_empty_partials(canon(r)), strip_empty_partials(canon(r2))
     op0, sm0 = store[c["op"]], store[c["sm"]]
     plain = not isinstance(op0, epg.operators.DiffOperator)
-    if plain and is_sm(sm0) and has_partial_attrs(sm0):
-        sig = {"site": "Operator.__call__", "why": "outofplace-drops-partials"}
-    else:
+    if not canon_close(ca, cb):
         sig = {"site": ("Operator" if plain else "DiffOperator") + ".__call__", "why": "inplace-differs-from-outofplace"}
-    a, b = (ca, cb) if c["inplace"] else (cb, ca)
-    return [{"sig": sig, "step": step, "kind": "mode", "obj": c["sm"],
-             "what": "call %d: op(sm, inplace=True) and op(sm) on the same values return different results, first difference at %s "
-                     "(in place vs out of place)" % (step, first_diff(b, a))}]
+        a, b = (ca, cb) if c["inplace"] else (cb, ca)
+        out.append({"sig": sig, "step": step, "kind": "mode", "obj": c["sm"],
+                    "what": "call %d: op(sm, inplace=True) and op(sm) on the same values return different results, first difference at %s "
+                            "(in place vs out of place)" % (step, first_diff(b, a))})
+    # non-differentiable operator, out of place: partials kept and transformed (Operator._apply_partial)
+    rout = r2 if c["inplace"] else r
+    if plain and is_sm(sm0) and is_sm(rout) and rout is not sm0 and not isinstance(op0, epg.operators.Probe) and partials_of(sm0):
+        why = None
+        got = {(nm, k): v for nm, k, v in partials_of(rout)}
+        for nm, k, part in partials_of(sm0):
+            if (nm, k) not in got:
+                why = "%s[%r] of the input is missing in the result" % (nm, k)
+                break
+            if has_pd(op0):
+                continue            # PD: partials unchanged / zeroed, checked against the model (synthetic histories, C02)
+            try:
+                exp = copy.deepcopy(op0)(copy.deepcopy(part))
+            except Exception:
+                continue
+            if not canon_close(canon(np.asarray(exp.states)), canon(np.asarray(got[(nm, k)].states))):
+                why = "%s[%r] of the result is not the operator applied to %s[%r] of the input" % (nm, k, nm, k)
+                break
+        if why is None and len(got) != len(partials_of(sm0)):
+            why = "the result carries partials the input does not have"
+        if why:
+            out.append({"sig": {"site": "Operator.__call__", "why": "outofplace-partials-wrong"}, "step": step, "kind": "mode", "obj": c["sm"],
+                        "what": "call %d: non-differentiable operator applied out of place to a state matrix with partials: %s" % (step, why)})
+    return out
 
 
 # =====================================================================================================
@@ -793,10 +830,9 @@ def stepping_check(hist, pu):
         except Exception:
             continue            # the oracle itself could not be evaluated (ragged asarray, ...): no verdict
         # the same sequence stepped OUT OF PLACE (op(sm) returns a new state each time): recorded values, Jacobian / Hessian
-        # included, must agree with in-place execution.  Only when every operator is differentiable: a plain operator applied
-        # out of place drops the partials (known finding of C02 / C09).
+        # included, must agree with in-place execution (plain operators too: they propagate the partials in both modes).
         try:
-            if all(isinstance(op, (epg.operators.DiffOperator, epg.operators.Probe)) for op in flat):
+            if True:
                 if c.get("init") is not None:
                     sm = copy.deepcopy(A[c["init"]]).copy()
                     sm.options.update(opts)
@@ -1538,7 +1574,7 @@ def hash_sweep(ctx, hists, seeds):
 # in-place vs out-of-place on the implementation (target of inplace_equals_outofplace*)
 # =====================================================================================================
 def ipoop_case(first, second, with_partials):
-    """(canon of op(copy(sm), inplace=True), canon of op(sm), op is a plain operator)"""
+    """(value of op(copy(sm), inplace=True), value of op(sm), op is a plain operator); empty order1/order2 == absent"""
     import epgpy as epg
     env = {"epg": epg, "np": np}
     sm = epg.StateMatrix()
@@ -1548,13 +1584,12 @@ def ipoop_case(first, second, with_partials):
     op = eval(second, env)
     a = op(copy.deepcopy(sm), inplace=True)
     b = op(sm)
-    return canon(a), canon(b), not isinstance(op, epg.operators.DiffOperator)
+    return strip_empty_partials(canon(a)), strip_empty_partials(canon(b)), not isinstance(op, epg.operators.DiffOperator)
 
 
 def inplace_vs_outofplace(ctx, rng, n):
-    """value of op(sm, inplace=True) (on a fresh deep copy) vs op(sm): equal for differentiable operators and for
-    state matrices without partials (theorems C09_model_inplace_equals_outofplace_*), expected to differ for plain
-    operators on a state with partials (C09_inplace_equals_outofplace_refuted)"""
+    """value of op(sm, inplace=True) (on a fresh deep copy) vs op(sm): equal for every operator and every state matrix,
+    partials included (theorem C09_model_inplace_equals_outofplace)"""
     nd = 0
     reported = set()
     for i in range(n):
@@ -1564,20 +1599,18 @@ def inplace_vs_outofplace(ctx, rng, n):
         with_partials = rng.random() < 0.7
         ca, cb, plain = ipoop_case(first, second, with_partials)
         ctx.count(("ipoop", first, second, with_partials), nontrivial=True)
-        if ca != cb:
+        if not canon_close(ca, cb):
             nd += 1
-            sig = {"site": "Operator.__call__", "why": "outofplace-drops-partials"} if (plain and with_partials) else \
-                  {"site": second.split("(")[0] + ".__call__", "why": "inplace-differs-from-outofplace"}
+            sig = {"site": ("Operator" if plain else "DiffOperator") + ".__call__", "why": "inplace-differs-from-outofplace"}
             if repr(sig) in reported:
                 continue
             reported.add(repr(sig))
-            ctx.report("op(sm, inplace=True) and op(sm) return different values for op=%s on a state matrix %s partials: first difference at %s "
-                       "(out of place the result is built on StateMatrix.copy(), which carries no order1/order2; in place the partials stay, untouched)"
+            ctx.report("op(sm, inplace=True) and op(sm) return different values for op=%s on a state matrix %s partials: first difference at %s"
                        % (second, "with" if with_partials else "without", first_diff(cb, ca)),
                        {"ipoop": {"first": first, "second": second, "with_partials": with_partials},
                         "script": "sm = epg.S(1)(%s(epg.StateMatrix())); op = %s; a = op(copy.deepcopy(sm), inplace=True); b = op(sm); "
                                   "print(getattr(a,'order1',None), getattr(b,'order1',None))" % (first, second),
-                        "model_theorem": "C09_inplace_equals_outofplace_refuted"}, found_input=True, signature=sig)
+                        "model_theorem": "C09_model_inplace_equals_outofplace"}, found_input=True, signature=sig)
     return nd
 
 
@@ -1704,9 +1737,9 @@ def replay(ctx, rp):
         q = rp["ipoop"]
         ca, cb, plain = ipoop_case(q["first"], q["second"], q["with_partials"])
         print("replay script:", rp.get("script"))
-        print("replay: VIOLATION reproduced: in-place and out-of-place values differ at %s" % first_diff(cb, ca) if ca != cb
+        print("replay: VIOLATION reproduced: in-place and out-of-place values differ at %s" % first_diff(cb, ca) if not canon_close(ca, cb)
               else "replay: in-place and out-of-place values are identical")
-        return 1 if ca != cb else 0
+        return 1 if not canon_close(ca, cb) else 0
     print("replay: not an input replay (%s)" % rp.get("what"))
     return 1
 
